@@ -143,23 +143,40 @@ func (in *c04Inst) populate(nodes []c04Node, viaRemote bool) {
 	if in.cache != nil && viaRemote {
 		target = in.remote
 	}
+	// a backend that refuses one of these plain writes is a finding about the backend, not a reason to stop
+	soft := func(what string, p string, err error) bool {
+		if err == nil {
+			return true
+		}
+		if c04Out != nil {
+			c04Out.Fail("setup", fmt.Sprintf("building a tree in a %s filespace: %s(%q) failed: %v", in.Kind, what, p, err), "setup:"+in.Kind,
+				map[string]interface{}{"op": "populate", "backend": in.Kind, "path": p})
+			return false
+		}
+		must(err)
+		return false
+	}
 	for _, n := range nodes {
 		if n.Dir {
-			must(target.MkdirAll(n.Path, 0o777))
+			soft("MkdirAll", n.Path, target.MkdirAll(n.Path, 0o777))
 		} else {
 			if d := path.Dir(n.Path); d != "." {
-				must(target.MkdirAll(d, 0o777))
+				if !soft("MkdirAll", d, target.MkdirAll(d, 0o777)) {
+					continue
+				}
 			}
-			must(target.WriteFile(n.Path, append([]byte{}, n.Data...), 0o644))
+			soft("WriteFile", n.Path, target.WriteFile(n.Path, append([]byte{}, n.Data...), 0o644))
 		}
 	}
 }
+
+var c04Out *Out
 
 var c04Sizes = []int{0, 0, 1, 1, 15, 15, 15, 300}
 
 func c04GenTree(rng *RNG, maxNodes int, allowBig bool) []c04Node {
 	n := rng.Intn(maxNodes + 1)
-	names := []string{"a", "b", "c", "d", "e.txt", "f", "g.bin"}
+	names := []string{"a", "b", "c", "d", "e.txt", "f", "g.bin", ".a", ".d"}
 	type dirEnt struct {
 		p     string
 		depth int
@@ -1232,6 +1249,7 @@ func c04Forced(o *Out, reps int) {
 }
 
 func runC04(o *Out, rng *RNG, tier string, replay string) {
+	c04Out = o
 	o.Imports = "From GC Require Import Common.Base Model.Paths Model.Fs Model.Stream Model.Copy Corr.C04."
 	o.CaseType = "case"
 	o.CheckFn = "check"
